@@ -85,8 +85,11 @@ TGlobal ==
 TParseParams ==
     /\ More /\ Ev.k = "x-parseparams"
     /\ Ev.allzero
-    /\ IF HasBeyond(Ev.toks) \/ HasMixed(Ev.toks)
+    /\ IF HasMixed(Ev.toks)
        THEN Ev.n \in 0..65535
+       ELSE IF HasBeyond(Ev.toks)
+       THEN \* E20: an index beyond the limit is left out of account, or taken for the limit - nothing else
+            Ev.n \in {MaxOf((DollarIdx(Ev.toks) \ {-1}) \cup {0}), 65535}
        ELSE Ev.n = CountParams(Ev.toks)
     /\ l' = l + 1 /\ UNCHANGED <<vars, pend>>
 
